@@ -88,4 +88,23 @@ PROPS = {
         "assumptions": ["the application's Lock/Unlock/Database answers are arbitrary (quantified over all environments in the theorems)",
                         "panicking runs are excluded from the 'nothing held at return' clause (crashes are C11's subject)"],
     },
+    "C07": {
+        "level": "proof",
+        "lean_modules": ["AV.Props.C07"],
+        "support_modules": ["AV.Core.Prog", "AV.Spec.Monitors", "AV.Lemmas.GateProofs", "AV.Pub.BaseActor", "AV.Pub.SideEffect", "AV.Pub.Util"],
+        "theorems": [
+            "AV.Props.C07.clean_of_gt", "AV.Props.C07.postOutbox", "AV.Props.C07.getOutbox", "AV.Props.C07.getInbox",
+            "AV.Props.C07.gt_authorize", "AV.Props.C07.postInbox", "AV.Props.C07.handler",
+            "AV.Props.C07.notAP_postInbox", "AV.Props.C07.notAP_postOutbox", "AV.Props.C07.notAP_getInbox", "AV.Props.C07.notAP_getOutbox",
+            "AV.Props.C07.notAP_handler", "AV.Props.C07.disabled_postInbox", "AV.Props.C07.disabled_postOutbox",
+        ],
+        "translator_scope": [r"gen_lean", r"T2 failed"],
+        "runners": [{"args": ["pub-C07", "1500", "6", "gate,gate,gate,inbox,outbox,get"], "thorough_args": [], "timeout": 1500}],
+        "exhaustive": {"quick": False, "thorough": False},
+        "rule": "random draws from the product {PostInbox, PostOutbox, GetInbox, GetOutbox, handler} x protocol configuration x authentication {ok, denied, error} x block {no, yes, error} x HTTP method x "
+                "ActivityPub / non-ActivityPub header variants x body {valid activity of each handled type, bare object, unknown type, non-JSON, JSON array}, plus side-effect scenarios with single faults; "
+                "each trace is replayed against the model and run through the gate monitor; non-trivial = conclusive replay; distinct by scenario hash",
+        "trusted_base": ["hand transcription of pub/base_actor.go, handlers.go, side_effect_actor.go (tied by trace replay each run)", "the 9 accepted media types are re-derived in the model exactly as pub/util.go's init() builds them"],
+        "assumptions": ["the request-body hooks are not side-effect callbacks in the sense of the statement (they run after authentication and before the block check)"],
+    },
 }
